@@ -39,6 +39,8 @@ var mfGuard = guardSpec{
 
 func c17(c *Ctx) {
 	c17InterruptedCreation(c, "C17.7/interrupted-file-creation-is-tolerated")
+	c17WriteCountRecorded(c, "C17.8/short-write-is-accounted")
+	c17ActiveChunkServesOnlyItsOwnOffsets(c, "C17.9/active-chunk-serves-only-its-own-offsets")
 	c17CacheMissNotSurfaced(c, "C17.6/chunk-cache-miss-is-not-a-read-error")
 	c17FullReads(c, "C17.5/header-read-is-full")
 	c17RefCountedClose(c, "C17.4/chunk-closed-only-without-readers")
@@ -729,4 +731,159 @@ func c17InterruptedCreation(c *Ctx, r string) {
 	} else {
 		c.ok(r, fnName(f)+":size-before-open", c.pos(f.Pos()), "FileInfo.Size() of the last chunk is consulted on every path to its opening")
 	}
+}
+
+// c17WriteCountRecorded: a write to the file may be short: n bytes were accepted, then an error. The file position
+// has moved by n whatever the error says, so the byte count is added to the appendable's own idea of the file offset
+// (and to the flushed mark of the write buffer) on EVERY path from the write to a return - the error path included.
+// Otherwise the retry writes the same bytes again n positions further: everything behind is read at the wrong offset.
+func c17WriteCountRecorded(c *Ctx, r string) {
+	n := 0
+	for _, f := range c.allFns {
+		if !fnInPkgs(f, []string{"embedded/appendable/singleapp"}) || len(f.Blocks) == 0 {
+			continue
+		}
+		for i, in := range sites(f, callTo("os.(*File).Write")) {
+			cl := in.(*ssa.Call)
+			if fl, _ := fieldOf(cl.Call.Args[0]); fl != "AppendableFile.f" {
+				continue
+			}
+			n++
+			var cnt ssa.Value
+			for _, rf := range *cl.Referrers() {
+				if ex, ok := rf.(*ssa.Extract); ok && ex.Index == 0 {
+					cnt = ex
+				}
+			}
+			for _, field := range []string{"AppendableFile.fileOffset", "AppendableFile.wbufFlushedOffset"} {
+				construct := fmt.Sprintf("%s:Write#%d:count->%s", fnName(f), i, lastSeg(field))
+				if cnt == nil {
+					c.fail(r, construct, c.pos(in.Pos()), "the number of bytes written to the file is discarded")
+					continue
+				}
+				rec := func(x ssa.Instruction) bool {
+					st, ok := x.(*ssa.Store)
+					if !ok {
+						return false
+					}
+					if fl, _ := fieldOf(st.Addr); fl != field {
+						return false
+					}
+					return dependsOn(st.Val, func(v ssa.Value) bool { return v == cnt })
+				}
+				q := &pathQ{fn: f, from: []ssa.Instruction{in}, to: isReturn, via: rec}
+				if w := q.bypass(); w != nil {
+					c.fail(r, construct, c.pos(in.Pos()), "the bytes accepted by a write that also failed are not added to "+lastSeg(field)+" ("+c.witnessStr(w)+"): the file has moved, the appendable has not, the retry duplicates them and shifts what follows")
+				} else {
+					c.ok(r, construct, c.pos(in.Pos()), "added on every path to a return, the failing one included")
+				}
+			}
+		}
+	}
+	if n < 1 {
+		c.undecided(r, "floor", "no write to the appendable's file found (flush confirmed by hand)")
+	}
+}
+
+// c17ActiveChunkServesOnlyItsOwnOffsets: a read is routed to the chunk its offset belongs to (offset / fileSize). The
+// active chunk is handed out by the routing step only when that chunk id EQUALS the active one: a chunk id beyond it
+// is past the end of the log (io.EOF), served by the active chunk it would replay the last chunk's bytes at
+// off % fileSize with a nil error.
+func c17ActiveChunkServesOnlyItsOwnOffsets(c *Ctx, r string) {
+	n := 0
+	for _, f := range c.allFns {
+		if !fnInPkgs(f, []string{"embedded/appendable/multiapp"}) || len(f.Blocks) == 0 || len(f.Params) < 2 {
+			continue
+		}
+		// routing functions: (mf, off int64) (appendable.Appendable, error) computing appendableID(off, ...)
+		if len(sites(f, callTo("embedded/appendable/multiapp.appendableID"))) == 0 || f.Signature.Results().Len() != 2 {
+			continue
+		}
+		isCurr := func(v ssa.Value) bool {
+			u, ok := v.(*ssa.UnOp)
+			if !ok || u.Op != token.MUL {
+				return false
+			}
+			fl, _ := fieldOf(u.X)
+			return fl == "MultiFileAppendable.currApp"
+		}
+		isChunkID := func(v ssa.Value) bool {
+			return dependsOn(v, func(x ssa.Value) bool {
+				cl, ok := x.(*ssa.Call)
+				return ok && calleeName(&cl.Call) == "embedded/appendable/multiapp.appendableID"
+			})
+		}
+		isActiveID := func(v ssa.Value) bool {
+			u, ok := v.(*ssa.UnOp)
+			if !ok || u.Op != token.MUL {
+				return false
+			}
+			fl, _ := fieldOf(u.X)
+			return fl == "MultiFileAppendable.currAppID"
+		}
+		eq := func(b *ssa.BasicBlock, si int) bool {
+			if len(b.Instrs) == 0 {
+				return false
+			}
+			ifi, ok := b.Instrs[len(b.Instrs)-1].(*ssa.If)
+			if !ok {
+				return false
+			}
+			bo, ok := ifi.Cond.(*ssa.BinOp)
+			if !ok || !((isChunkID(bo.X) && isActiveID(bo.Y)) || (isChunkID(bo.Y) && isActiveID(bo.X))) {
+				return false
+			}
+			return (bo.Op == token.EQL && si == 0) || (bo.Op == token.NEQ && si == 1)
+		}
+		k := 0
+		for _, b := range f.Blocks {
+			if len(b.Instrs) == 0 {
+				continue
+			}
+			rt, ok := b.Instrs[len(b.Instrs)-1].(*ssa.Return)
+			if !ok || len(rt.Results) != 2 || !isValueOf(unspill(rt.Results[0], rt), isCurr, 0) {
+				continue
+			}
+			k++
+			n++
+			dom := false
+			for _, bb := range f.Blocks {
+				for si := range bb.Succs {
+					if eq(bb, si) && edgeDominates(bb, si, b) {
+						dom = true
+					}
+				}
+			}
+			c.check(dom, r, fmt.Sprintf("%s:hands-out-active-chunk#%d", fnName(f), k), c.pos(rt.Pos()), "only when the chunk of the offset is the active chunk",
+				"the active chunk is handed out for an offset although nothing established that the offset's chunk id EQUALS the active one: an offset beyond the end of the log is answered with bytes of the last chunk")
+		}
+	}
+	if n < 1 {
+		c.undecided(r, "floor", "the routing step handing out the active chunk was not found (cachedAppendableFor confirmed by hand)")
+	}
+}
+
+// isValueOf: v is, through phis and interface conversions only, a value satisfying p.
+func isValueOf(v ssa.Value, p func(ssa.Value) bool, d int) bool {
+	if v == nil || d > 6 {
+		return false
+	}
+	if p(v) {
+		return true
+	}
+	switch x := v.(type) {
+	case *ssa.Phi:
+		for _, e := range x.Edges {
+			if isValueOf(e, p, d+1) {
+				return true
+			}
+		}
+	case *ssa.ChangeInterface:
+		return isValueOf(x.X, p, d+1)
+	case *ssa.MakeInterface:
+		return isValueOf(x.X, p, d+1)
+	case *ssa.ChangeType:
+		return isValueOf(x.X, p, d+1)
+	}
+	return false
 }
